@@ -11,14 +11,14 @@ CFG = {
                   "(C08_heap, for every operation list), Peek = next Pop (C08_heap_peek_is_next_pop). Tied to the code on every run: every result, and "
                   "after every mutator Peek/Values/Size/Empty(/Full) plus ring cursors and the heap's whole backing array through "
                   "verif accessors, are compared with the model (kind 1) and judged by the abstract discipline (kind 2) inside Coq.",
-    "level_note": "The model is the model of the code with repair 0021 (D19) applied. Element type int; comparators exercised: "
-                  "IntComparator and its ReverseComparator; the heap theorems hold for any total transitive comparator. The heap's "
+    "level_note": "The model is the model of the code with repair 0021 (D19) applied. Element type int; comparators exercised (cmpsel, premises proved per shape: "
+                  "C08_cmpsel_orders): IntComparator, its ReverseComparator, a-b, b-a, (a-b)*7 and a.prio-b.prio on struct elements; the heap theorems hold for any total transitive comparator. The heap's "
                   "discipline is a relation (Pop returns *a* minimum), decided by bag_accept; FIFO/LIFO/ring results are compared "
                   "with = against the reference.",
     "harness": "c08",
     "theorems": [("C08.Props", [
         "C08_circ", "C08_arrayqueue", "C08_linkedlistqueue", "C08_arraystack", "C08_linkedliststack",
-        "C08_heap", "C08_heap_peek_is_next_pop", "C08_heap_root_is_min", "C08_perm_b", "C08_spec_lastn", "C08_int_comparators"])],
+        "C08_heap", "C08_heap_peek_is_next_pop", "C08_heap_root_is_min", "C08_perm_b", "C08_spec_lastn", "C08_int_comparators", "C08_cmpsel_orders"])],
     "trusted": [
         "comparator enters the heap model only as le a b := (Comparator(a,b) <= 0); theorems assume it total and transitive (premises, "
         "proved for the two int comparators used)",
